@@ -144,6 +144,7 @@ pub fn c02_foreign(ctx: &Ctx, out: &mut RunOut) -> Result<(), Violation> {
         let d = guarded("load_from", || sim::load_from(&mut src))?
             .map_err(|e| Violation::new("load-failed", format!("a well-formed file ({}) failed to load: {e}", describe(&h))))?;
         ctx.count_n("read-eintr-fired", src.eintr_fired);
+        ctx.event("c02-loaded", i as u64, sim::full_digest(&d));
         compare_loaded(&h, last, &sim::from_doc(&d), &describe(&h))?;
     }
     ctx.set_sched(SchedPolicy::Random);
@@ -213,6 +214,10 @@ pub fn c08_schedules(ctx: &Ctx, out: &mut RunOut) -> Result<(), Violation> {
                 Ok(d) => Ok(sim::full_digest(d)),
                 Err(e) => Err(format!("{:?}", e)),
             };
+            match &outcome {
+                Ok(dg) => ctx.event("c08-loaded", 1, *dg),
+                Err(e) => ctx.event("c08-loaded", 0, simcore::fnv(e.as_bytes())),
+            }
             // reach: relative completion order of the object-stream containers
             if let (Ok(d), Some(top)) = (&loaded, ctx.take_orders().first()) {
                 let keys: Vec<u32> = d.reference_table.entries.keys().cloned().collect();
